@@ -87,6 +87,11 @@ func (ex *Exec) lookup(fr *frame, in *ssa.Lookup) Value {
 	case *Term: // string index
 		idx := k.(*Term)
 		ex.checkIndex(fr, idx, StrLen(m))
+		if n := StrLen(m); IsCharList(m) && n.IsConst() && !idx.IsConst() {
+			if v, ok := ex.ConcretizeInt(idx, 0, n.I.Int64(), "string index"); ok {
+				idx = IntC(v)
+			}
+		}
 		return ByteAt(m, idx)
 	case *Map:
 		vt := in.X.Type().Underlying().(*types.Map).Elem()
@@ -189,6 +194,19 @@ func (ex *Exec) slice(fr *frame, in *ssa.Slice) Value {
 		}
 		if !ex.Decide(And(Le(IntC(0), lo), Le(lo, hi), Le(hi, n))) {
 			ex.boundsPanic(fr, "slice bounds")
+		}
+		if IsCharList(s) && n.IsConst() {
+			// character lists stay structural: fork on symbolic offsets (small range)
+			if !lo.IsConst() {
+				if v, ok := ex.ConcretizeInt(lo, 0, n.I.Int64()+1, "slice lo"); ok {
+					lo = IntC(v)
+				}
+			}
+			if !hi.IsConst() {
+				if v, ok := ex.ConcretizeInt(hi, 0, n.I.Int64()+1, "slice hi"); ok {
+					hi = IntC(v)
+				}
+			}
 		}
 		return SubstrIn(s, lo, Sub(hi, lo))
 	case *ByteSlice:
